@@ -84,9 +84,12 @@ def check(model, rep, tier):
     tcall = [c for c in pycfg.calls_at(g, ta[0])
              if core.norm(c.func) == 'self.transform_ast'][0]
     facts = {'erase_stmt': core.norm(ea), 'transform_arg': core.norm(tcall.args[0])}
-    ok = ok and isinstance(ea, ast.Assign) and core.norm(ea.targets[0]) == \
-        core.norm(tcall.args[0]) and core.norm(ea.value.args[0]) == core.norm(
-            tcall.args[0])
+    # what is transformed is what the erasure returned (through a local, or the
+    # call nested in the argument)
+    a0 = tcall.args[0]
+    ok = ok and ((isinstance(ea, ast.Assign) and core.norm(ea.targets[0]) == core.norm(a0))
+                 or (isinstance(a0, ast.Call) and core.norm(a0.func) ==
+                     'self._erase_arg_defaults'))
   rep.check(ok, 'IFACE-ERASE', '%s:erase-before-transform' % gtf.site,
             'the node handed to transform_ast must be the result of '
             '_erase_arg_defaults on every path', facts, line=gtf.node.lineno,
